@@ -1085,16 +1085,18 @@ def mean(a, axis=None, keepdims=False):
     return _box(_div(s, float(n)))
 
 
-def var(a, axis=None):
+def var(a, axis=None, ddof=0):
     a = _as(a)
     if axis is not None:
         raise ModelGap("var with axis")
     m = mean(a)
+    if ddof:
+        return sum_((a - m) ** 2) / (a.size - ddof)
     return mean((a - m) ** 2)
 
 
-def std(a, axis=None):
-    return sqrt(var(a, axis))
+def std(a, axis=None, ddof=0):
+    return sqrt(var(a, axis, ddof))
 
 
 def _allf(r, v):
@@ -1461,7 +1463,15 @@ def where(cond, x=None, y=None):
     cv = broadcast_to(cond, shape).flat
     xv = broadcast_to(x, shape).flat
     yv = broadcast_to(y, shape).flat
-    vals = [ite(c, a, b) for c, a, b in zip(cv, xv, yv)]
+    def pick(c, a, b):
+        # a non-finite alternative (NaN / inf placeholders) cannot live inside a symbolic term: decide the condition on this
+        # path (the engine forks when both outcomes are feasible)
+        for v in (a, b):
+            v0 = _unbox(v)
+            if isinstance(v0, float) and (v0 != v0 or v0 in (float("inf"), float("-inf"))) and isinstance(_unbox(c), SymBool):
+                return a if _truth(c) else b
+        return ite(c, a, b)
+    vals = [pick(c, a, b) for c, a, b in zip(cv, xv, yv)]
     return ndarray.fresh(vals, shape, _promote([x._dt, y._dt]))
 
 
@@ -1887,6 +1897,24 @@ class _Char:
         return ndarray.fresh(a.flat, a.shape, "U")
 
 
+    # ---- element-wise string methods on concrete strings (symbolic names are atoms without characters: ModelGap)
+    @staticmethod
+    def _map(a, f, what):
+        a = _as(a)
+        if a._dt not in ("U", "O"):
+            raise TypeError("string operation on non-string array")
+        out = []
+        for v in a.flat:
+            v = _unbox(v)
+            if type(v).__name__ == "SymStr":
+                raise ModelGap("np.char.%s of a symbolic name" % what)
+            out.append(f(v))
+        return ndarray.fresh(out, a.shape, "U")
+
+
+for _name in ("strip", "rstrip", "lstrip", "lower", "upper", "title", "capitalize", "swapcase"):
+    setattr(_Char, _name, staticmethod(lambda a, chars=None, _n=_name: _Char._map(
+        a, (lambda v: getattr(v, _n)(chars)) if _n in ("strip", "rstrip", "lstrip") else (lambda v: getattr(v, _n)()), _n)))
 char = _Char()
 
 
